@@ -49,4 +49,19 @@ def obligations(tier):
                 'stand-alone bool; nested struct: begin resets / end restores the last field id (ids 1..15 symbolic), STOP bytes, exact byte image',
                 ['thrift_write_bool', 'thrift_read_bool', 'thrift_write_struct_begin', 'thrift_write_struct_end', 'thrift_write_field_stop',
                  'thrift_read_struct_begin', 'thrift_read_struct_end', 'thrift_read_field_begin'], wrap=True))
+    o += nesting_guard(tier)
     return o
+
+
+def nesting_guard(tier):
+    """Shared with C08: the decoder's struct-frame array on inputs that nest deeper than THRIFT_MAX_NESTING."""
+    ks = (0, 1, 31, 32, 33, 34, 36) if tier == 'quick' else tuple(range(0, 37))
+    return [_nest(k) for k in ks] + ([] if tier == 'quick' else [_nest(None)])
+
+
+def _nest(k):
+    return _e('struct-nesting-guard/%s' % ('depth%d' % k if k is not None else 'depth-symbolic'), ['-DMODE=9'] + (['-DKNEST=%d' % k] if k is not None else []),
+              ('K = %d' % k if k is not None else 'K = 0..36 (symbolic)') + ' nested struct frames opened by the byte sequence 0x1C^K followed by symbolic bytes, one field read per frame, all frames '
+              'closed again: nesting beyond THRIFT_MAX_NESTING is refused with an error, nesting within it accepted; every index into last_field_id[] is '
+              'inside the array (CBMC array-bounds checks on the real decoder)',
+              ['thrift_read_struct_begin', 'thrift_read_struct_end', 'thrift_read_field_begin'], timeout=600 if k is not None else 1500, wrap=True)
